@@ -265,8 +265,7 @@ structure ListsOk (ls : List (List Nat)) (valence valEnc hEnc off bound : Nat) :
   offLt : off < 2 ^ 64
   boundLe : bound ≤ 2 ^ 64
   handles : ∀ l ∈ ls, l ≠ [] ∧ ∀ h ∈ l, off ≤ h ∧ h - off < 256 ^ elemSizeInt hEnc ∧ h < bound
-  mode : (valence ≠ 0 ∧ valEnc = intEncodingNone ∧ valence < 256 ∧ (∀ l ∈ ls, l.length = valence)
-            ∧ valence * ls.length < 2 ^ 32)
+  mode : (valence ≠ 0 ∧ valEnc = intEncodingNone ∧ valence < 256 ∧ (∀ l ∈ ls, l.length = valence))
        ∨ (valence = 0 ∧ encOk valEnc = true ∧ ∀ l ∈ ls, l.length < 256 ^ elemSizeInt valEnc)
 
 theorem flatten_length_fixed (ls : List (List Nat)) (v : Nat) (h : ∀ l ∈ ls, l.length = v) :
@@ -296,7 +295,7 @@ theorem topo_front (first entity : Nat) (hent : entity ∈ validTopoEntity) (hfi
           readInts (elemSizeInt valEnc) ls.length) else pure []) hb
         = .ok (if valence = 0 then ls.map List.length else [], encInts (elemSizeInt hEnc) (ls.flatten.map (· - off))) ∧
       (encInts (elemSizeInt hEnc) (ls.flatten.map (· - off))).length =
-        (if valence = 0 then (ls.map List.length).sum else (valence * ls.length) % 2 ^ 32) * elemSizeInt hEnc := by
+        (if valence = 0 then (ls.map List.length).sum else valence * ls.length) * elemSizeInt hEnc := by
   obtain ⟨hv6, _, _⟩ := encOk_valid hok.hEncOk
   have hpay : topoPayload first entity valence valEnc hEnc off ls = encTopoHeader first ls.length entity valence valEnc hEnc off ++
       ((if valence = 0 then encInts (elemSizeInt valEnc) (ls.map List.length) else [])
@@ -327,8 +326,8 @@ theorem topo_front (first entity : Nat) (hent : entity ∈ validTopoEntity) (hfi
       simp only [if_true, bind_run, remaining_run, hg, guard_true, hr]
   · rw [encInts_length, List.length_map, Nat.mul_comm]
     congr 1
-    rcases hok.mode with ⟨h0, _, _, hl, h32⟩ | ⟨h0, _, _⟩
-    · rw [if_neg h0, Nat.mod_eq_of_lt h32]; exact flatten_length_fixed ls valence hl
+    rcases hok.mode with ⟨h0, _, _, hl⟩ | ⟨h0, _, _⟩
+    · rw [if_neg h0]; exact flatten_length_fixed ls valence hl
     · rw [if_pos h0, List.length_flatten]
 
 theorem validSpan_ok (total read count : Nat) (h : count ≤ total - read) : validSpan total read read count = true := by
@@ -356,11 +355,11 @@ theorem applyTopo_faces (cfg : Cfg) (s : RState) (ls : List (List Nat)) (valence
     · simp [(encOk_valid h).2.1]
   have hvals : (if valence = 0 then (if valence = 0 then ls.map List.length else []) else List.replicate ls.length valence)
       = ls.map List.length := by
-    rcases hok.mode with ⟨h0, _, _, hl, _⟩ | ⟨h0, _⟩
+    rcases hok.mode with ⟨h0, _, _, hl⟩ | ⟨h0, _⟩
     · rw [if_neg h0]; exact (map_length_fixed ls valence hl).symm
     · simp [h0]
-  have hsum : (if valence = 0 then (if valence = 0 then ls.map List.length else []).sum else valence * ls.length % 2 ^ 32)
-      = (if valence = 0 then (ls.map List.length).sum else valence * ls.length % 2 ^ 32) := by
+  have hsum : (if valence = 0 then (if valence = 0 then ls.map List.length else []).sum else valence * ls.length)
+      = (if valence = 0 then (ls.map List.length).sum else valence * ls.length) := by
     split <;> rfl
   have h4 := readFaceLists_enc (elemSizeInt hEnc) off (2 * s.edges.length) ls [] hok.boundLe hok.handles
   rw [List.append_nil] at h4
@@ -394,11 +393,11 @@ theorem applyTopo_cells (cfg : Cfg) (s : RState) (ls : List (List Nat)) (valence
     · simp [(encOk_valid h).2.1]
   have hvals : (if valence = 0 then (if valence = 0 then ls.map List.length else []) else List.replicate ls.length valence)
       = ls.map List.length := by
-    rcases hok.mode with ⟨h0, _, _, hl, _⟩ | ⟨h0, _⟩
+    rcases hok.mode with ⟨h0, _, _, hl⟩ | ⟨h0, _⟩
     · rw [if_neg h0]; exact (map_length_fixed ls valence hl).symm
     · simp [h0]
-  have hsum : (if valence = 0 then (if valence = 0 then ls.map List.length else []).sum else valence * ls.length % 2 ^ 32)
-      = (if valence = 0 then (ls.map List.length).sum else valence * ls.length % 2 ^ 32) := by
+  have hsum : (if valence = 0 then (if valence = 0 then ls.map List.length else []).sum else valence * ls.length)
+      = (if valence = 0 then (ls.map List.length).sum else valence * ls.length) := by
     split <;> rfl
   have h4 := readFaceLists_enc (elemSizeInt hEnc) off (2 * s.faces.length) ls [] hok.boundLe hok.handles
   rw [List.append_nil] at h4
@@ -447,7 +446,7 @@ theorem EdgesOk.lists {es : List (Nat × Nat)} {hEnc off bound : Nat} (h : Edges
   mode := Or.inl ⟨by decide, rfl, by decide, by
     intro l hl
     simp only [edgeLists, List.mem_map] at hl
-    obtain ⟨e, _, rfl⟩ := hl; rfl, by have := h.count32; simpa [edgeLists] using this⟩
+    obtain ⟨e, _, rfl⟩ := hl; rfl⟩
 
 /-- `read_topo_chunk` / `read_edges` on a span of edges that continues where the last one ended -/
 theorem applyTopo_edges (cfg : Cfg) (s : RState) (es : List (Nat × Nat)) (hEnc off : Nat)
